@@ -223,6 +223,7 @@ struct Ctl<'a> {
     expect: Option<(String, u32, Option<(u32, u32)>, Option<u32>)>,
     ref_seq: Vec<(u32, u32)>,
     variant: usize,
+    steps_while_running: u64,
     parks_seen: u64,
     resumes_while_parked: u64,
     step_checks: u64,
@@ -358,6 +359,7 @@ impl Ctl<'_> {
         self.observe();
         let resume = !matches!(action, ControlAction::Pause(_));
         let parked_before = self.parked();
+        let points_before = self.sched.points_of(self.ct);
         let origin_depth = self.control.last_call_depth();
         let origin_loc = self.stops.last().and_then(|s| s.location).map(|l| (l.start, l.end));
         let _ = self.control.apply_action(action);
@@ -378,7 +380,23 @@ impl Ctl<'_> {
             };
             self.expect = kind.map(|k| (k.to_string(), origin_depth, origin_loc, target_thread));
         } else if resume {
+            // a step requested while the thread is RUNNING (continue immediately followed by next):
+            // if the cycle thread passed no scheduling point between the depth read and the end of
+            // the request, `origin_depth` is exactly the depth the step was issued from
             self.expect = None;
+            let kind = match action {
+                ControlAction::StepOver(_) => Some("over"),
+                ControlAction::StepOut(_) => Some("out"),
+                _ => None,
+            };
+            if let (Some(k), true) = (kind, self.sched.points_of(self.ct) == points_before && !self.done()) {
+                let target_thread = match action {
+                    ControlAction::StepOver(t) | ControlAction::StepOut(t) => t,
+                    _ => None,
+                };
+                self.steps_while_running += 1;
+                self.expect = Some((k.to_string(), origin_depth, None, target_thread));
+            }
         }
     }
 }
@@ -418,6 +436,7 @@ pub fn worker_exec(case: &Value) -> Value {
             expect: None,
             ref_seq,
             variant,
+            steps_while_running: 0,
             parks_seen: 0,
             resumes_while_parked: 0,
             step_checks: 0,
@@ -453,7 +472,7 @@ pub fn worker_exec(case: &Value) -> Value {
             // cannot join a wedged thread: report from here
             return json!({
                 "problems": ctl.problems, "finished": false, "stops": ctl.stops.len(), "parks": ctl.parks_seen,
-                "resumes_while_parked": ctl.resumes_while_parked, "step_checks": ctl.step_checks,
+                "resumes_while_parked": ctl.resumes_while_parked, "step_checks": ctl.step_checks, "steps_while_running": ctl.steps_while_running,
             });
         }
         let (rt, res) = handle.join().expect("cycle thread panicked");
@@ -581,6 +600,14 @@ fn scripts(tier: Tier) -> Vec<Vec<String>> {
     for b in ["B5", "B6", "B0", "B4"] {
         for s in ["SI", "SO", "SU", "SO1", "SO2", "SU1", "SU2"] {
             push(vec![b, "W", "C", "W", s]);
+        }
+    }
+    // a step requested while RUNNING: continue immediately followed by a step (no wait), from a
+    // stop on a call statement and from other stops; the step is armed inside the callee
+    for b in ["B0", "B5", "B6", "B3", "B1"] {
+        for s in ["SO", "SU", "SO1", "SO2", "SU1", "SU2"] {
+            push(vec![b, "W", "C", s]);
+            push(vec![b, "W", "C", s, "W", s]);
         }
     }
     for a in &base {
